@@ -15,7 +15,7 @@ class Scoped:
     """view of a Check that prefixes rule ids and violation keys: lets one property re-run clauses owned by another on the same tree"""
     def __init__(self, ck, prefix):
         self._ck = ck; self._p = prefix
-        self.assumptions = []; self.explanation = ''; self.trusted = []
+        self.assumptions = []; self.explanation = ''; self.trusted = []; self.extra = {}; self.analysed = {}
 
     def rule(self, rid, text): self._ck.rule(self._p + rid, text)
     def ok(self, rule, instance, where=None, detail=None, nontrivial=True): self._ck.ok(self._p + rule, instance, where, detail, nontrivial)
